@@ -51,13 +51,14 @@ type Env struct {
 	Fail  func() interface{}
 	Fast  func(...interface{}) interface{}
 	Sum   func(...int) int
+	List  func(...interface{}) interface{}
 	Half  func(float64) float64
 	I64f  func(int64) int64 `verif:"I64"`
 
 	log *CallLog
 }
 
-var envFnNames = []string{"Id", "Inc", "Add", "Cat", "IsPos", "Fail", "Fast", "Sum", "Half", "I64f"}
+var envFnNames = []string{"Id", "Inc", "Add", "Cat", "IsPos", "Fail", "Fast", "Sum", "List", "Half", "I64f"}
 
 func registerFn(name string, f interface{}) {
 	fnIDs[reflect.ValueOf(f).Pointer()] = name
@@ -107,6 +108,7 @@ func NewEnv(seed int, pick func(n int) int) *Env {
 		log.add("Sum", as...)
 		return s
 	}
+	e.List = func(xs ...interface{}) interface{} { log.add("List", xs...); return xs } // keeps its argument slice
 	e.Half = func(x float64) float64 { log.add("Half", x); return x / 2 }
 	e.I64f = func(x int64) int64 { log.add("I64f", x); return x }
 	registerFn("Id", e.Id)
@@ -117,6 +119,7 @@ func NewEnv(seed int, pick func(n int) int) *Env {
 	registerFn("Fail", e.Fail)
 	registerFn("Fast", e.Fast)
 	registerFn("Sum", e.Sum)
+	registerFn("List", e.List)
 	registerFn("Half", e.Half)
 	registerFn("I64", e.I64f)
 	return e
